@@ -4,12 +4,12 @@ package ref
 import "math/big"
 
 var (
-	P     = new(big.Int).Sub(new(big.Int).Lsh(big.NewInt(1), 255), big.NewInt(19))
-	L, _  = new(big.Int).SetString("7237005577332262213973186563042994240857116359379907606001950938285454250989", 10)
-	one   = big.NewInt(1)
-	two   = big.NewInt(2)
-	D     = fdiv(fneg(big.NewInt(121665)), big.NewInt(121666))
-	SqrtM1 = new(big.Int).Exp(two, new(big.Int).Rsh(new(big.Int).Sub(P, one), 2), P)
+	P       = new(big.Int).Sub(new(big.Int).Lsh(big.NewInt(1), 255), big.NewInt(19))
+	L, _    = new(big.Int).SetString("7237005577332262213973186563042994240857116359379907606001950938285454250989", 10)
+	one     = big.NewInt(1)
+	two     = big.NewInt(2)
+	D       = fdiv(fneg(big.NewInt(121665)), big.NewInt(121666))
+	SqrtM1  = new(big.Int).Exp(two, new(big.Int).Rsh(new(big.Int).Sub(P, one), 2), P)
 	Mask255 = new(big.Int).Sub(new(big.Int).Lsh(one, 255), one)
 )
 
